@@ -267,7 +267,8 @@ func (c *calc) itemPrice(s docgen.SubLine, rates []docgen.Rate) (Dec, error) {
 	}
 	for _, r := range rates {
 		if r.From == s.ItemCurrency && r.To == c.env.Currency {
-			conv := c.mul(c.tv(price), mustDec(r.Amount))
+			// the amount is raised to the destination currency's precision before multiplying
+			conv := c.mul(c.tv(up(price, c.env.C)), mustDec(r.Amount))
 			return c.rescale(conv.D, c.env.C), nil
 		}
 	}
